@@ -849,9 +849,16 @@ class World(object):
         st.kind = 'derive'
         st.pure = True
         st.srcs = [a]
+        f = op['f']
+        # the store that builds the result is a write of -v / +v / |v| into the operand's format
+        av = self.exact_of_slot(a) if (self.template is None and self.cfg_template is None
+                                       and not self.obj(a).scaled) else None
+        if av is not None:
+            vals = (av[0], [(-v if f == 'neg' else abs(v) if f == 'abs' else v) for v in av[1]])
+            st.store = Store('new', vals=vals, route='arith', judge_cb=False, arith=f)
+            st.extra['arith_route'] = 'unary'
         yield
         o = self.obj(a)
-        f = op['f']
         x = -o if f == 'neg' else +o if f == 'pos' else abs(o)
         self.finish_new(st, x, origin=f)
 
